@@ -195,7 +195,6 @@ type caseT struct {
 	Points []pt    `json:"points,omitempty"` // readable copy
 }
 
-
 type world struct {
 	c     *vbox.Cluster
 	base  int64
@@ -426,6 +425,10 @@ func main() {
 	base := day + 10*3600*1000
 	w := &world{c: c, base: base, tr: timeutil.TimeRange{Start: base, End: base + 50_000}, rep: rep, perms: map[int][][]int{}, noInter: noInterEnv}
 
+	if f.Part == "sched" {
+		runSched(f, rep, w)
+		return
+	}
 	// vacuity guard: the hosts of the alphabet must really be spread by the routing code
 	for n := int32(2); n <= 3; n++ {
 		seen := map[int]bool{}
@@ -564,7 +567,17 @@ func (w *world) checkData(data []int, layouts []layoutT, only string) {
 			viol := func(clause, site string, order []int, compAt int, wantS string, got verdict) {
 				cs := caseT{Data: data, Query: q.ID, Layout: lay, Order: order, CompAt: compAt, Points: pts}
 				rep.Sample(cs)
-				rep.Violate(vevid.Violation{Clause: clause, Scenario: q.ID, Site: site,
+				// scenario: the query for layout / order dependence (tells the defects apart); for the delivery
+				// schedule clauses the kind of answer that gets lost (they do not depend on the query)
+				scenario := q.ID
+				if clause == "completion_position" || clause == "waiter_schedule" {
+					scenario = "lost:" + wantS[strings.LastIndex(wantS, ") ")+2:]
+					if i := strings.IndexAny(scenario, "(["); i > 0 {
+						scenario = scenario[:i]
+					}
+					scenario = strings.TrimSpace(scenario) + "/got:" + got.key()
+				}
+				rep.Violate(vevid.Violation{Clause: clause, Scenario: scenario, Site: site,
 					Detail: fmt.Sprintf("points %v query %q layout %s (shards holding data %v) leaf answers %q delivery order %v Complete(nil) at %d: want %s got %s",
 						pts, q.SQL, lay, keys(used), lec, order, compAt, wantS, got),
 					Replay: cs})
@@ -619,7 +632,11 @@ func (w *world) checkData(data []int, layouts []layoutT, only string) {
 				w.viaIntermediates(sql, lay, want, func(clause string, nInter int, order []int, wantS string, got verdict, note string) {
 					cs := caseT{Data: data, Query: q.ID, Layout: lay, Order: order, CompAt: 0, Inter: nInter, Points: pts}
 					rep.Sample(cs)
-					rep.Violate(vevid.Violation{Clause: clause, Scenario: q.ID, Site: "query.intermediateTaskProcessor.Process",
+					scenario := q.ID
+					if clause == "intermediate.root_never_completes" || clause == "intermediate.compute_node_never_completes" {
+						scenario = fmt.Sprintf("intermediates=%d", nInter)
+					}
+					rep.Violate(vevid.Violation{Clause: clause, Scenario: scenario, Site: "query.intermediateTaskProcessor.Process",
 						Detail: fmt.Sprintf("points %v query %q layout %s via %d intermediate node(s), leaf answers delivered to the compute node in order %v%s: want %s got %s",
 							pts, q.SQL, lay, nInter, order, note, wantS, got),
 						Replay: cs})
